@@ -166,7 +166,7 @@ def gen_schedule(rng, nproc):
     return sched
 
 
-def run_schedule(W, path, sched, nproc):
+def run_schedule(W, path, sched, nproc, timeout=0.15):
     """Adaptive execution: after a refused enter the rest of that session is skipped.  Returns the executed macro
     labels (Coq terms), the observed outcomes (Coq terms) and the final file."""
     from molli.storage.ukvfile import UKVFile
@@ -182,7 +182,7 @@ def run_schedule(W, path, sched, nproc):
     for p, a in sched:
         k = a[0]
         if k == "enter":
-            r = W.call(p, cmd="enter", h=path, w=a[1], timeout=0.15)
+            r = W.call(p, cmd="enter", h=path, w=a[1], timeout=timeout)
             labels.append(f"MEnter {p} {p} {'true' if a[1] else 'false'}")
             if r == "ok":
                 in_sess[p] = True; skipping[p] = False; outs.append("Done ROk")
